@@ -4,7 +4,8 @@
    `_partial` = holds under the named extra hypothesis; `_refuted` = witnesses that the hypothesis is needed
    (here: for the control flow before the repairs 3de556b / fe25b5c, kept as regression witnesses). *)
 From Coq Require Import List Arith ZArith QArith Reals Bool Lia.
-From TLV Require Import Base.Shape Base.Tensor Base.RSum Model.Structure Proofs.StructureProofs Proofs.StructureProofsR.
+From TLV Require Import Base.Shape Base.Tensor Base.RSum Model.Structure Proofs.StructureProofs Proofs.StructureProofs2
+  Proofs.StructureProofsR Proofs.StructureNormR.
 Import ListNotations.
 Local Open Scope nat_scope.
 
@@ -75,6 +76,71 @@ Theorem C08_parafac_structure : forall shape spec out, parafac shape spec = Ok o
 Proof. exact parafac_structure. Qed.
 Print Assumptions C08_parafac_structure.
 
+(* tensor_train: when the validated request needs no clipping, the TT ranks are exactly the request *)
+Theorem C08_tensor_train_exact_ranks : forall shape spec c cores requested,
+  tensor_train shape spec c = Ok cores -> validate_tt_rank shape spec false RRound true c = Ok requested ->
+  (forall k, S k < length shape ->
+     nth (S k) requested 0 <= Nat.min (nth k requested 0 * nth k shape 0) (prod (skipn (S k) shape))) ->
+  core_ranks cores = requested.
+Proof. exact tensor_train_exact_ranks. Qed.
+Print Assumptions C08_tensor_train_exact_ranks.
+Example C08_tensor_train_exact_ranks_ex : tensor_train [3; 4; 5] (RList [1; 2; 3; 1]) 0 = Ok [[1; 3; 2]; [2; 4; 3]; [3; 5; 1]].
+Proof. vm_compute. reflexivity. Qed.
+
+(* tensor_train_matrix: n cores of order 4, core k = (r_k, in_k, out_k, r_k+1), boundary ranks 1 *)
+Theorem C08_tensor_train_matrix_structure : forall tshape spec c out, tensor_train_matrix tshape spec c = Ok out ->
+  let n := length tshape / 2 in
+  length tshape = 2 * n /\ 1 <= n /\ length out = n /\
+  exists rs, length rs = S n /\ hd 0 rs = 1 /\ last rs 0 = 1 /\
+  forall k, k < n -> nth k out [] = [nth k rs 0; nth k tshape 0; nth (n + k) tshape 0; nth (S k) rs 0].
+Proof. exact tensor_train_matrix_structure. Qed.
+Print Assumptions C08_tensor_train_matrix_structure.
+Example C08_tensor_train_matrix_structure_ex : tensor_train_matrix [2; 3; 3; 2] (RInt 4) 0 = Ok [[1; 2; 3; 4]; [4; 3; 2; 1]].
+Proof. vm_compute. reflexivity. Qed.
+
+(* tensor_ring, any start mode: the core computed first (the one of the start mode) has exactly the requested ranks *)
+Theorem C08_tensor_ring_first_core : forall shape spec mode cores rank,
+  tensor_ring shape spec mode = Ok cores -> validate_tr_rank shape spec RRound = Ok rank ->
+  nth mode cores [] = [nth mode rank 0; nth mode shape 0; nth (S mode) rank 0].
+Proof. exact tensor_ring_first_core. Qed.
+Print Assumptions C08_tensor_ring_first_core.
+
+(* tensor_ring_als: core k = (rank_k, I_k, rank_k+1) with the validated ranks, first rank = last rank *)
+Theorem C08_tensor_ring_als_structure : forall shape spec out, tensor_ring_als shape spec = Ok out ->
+  exists rank, validate_tr_rank shape spec RRound = Ok rank /\
+  length rank = S (length shape) /\ hd 0 rank = last rank 0 /\ length out = length shape /\
+  forall k, k < length shape -> nth k out [] = [nth k rank 0; nth k shape 0; nth (S k) rank 0].
+Proof. exact tensor_ring_als_structure. Qed.
+Print Assumptions C08_tensor_ring_als_structure.
+
+(* parafac2: weights (r), A (I x r), B (r x r), C (K x r) and ONE projection (J_i x r) per slice *)
+Theorem C08_parafac2_structure : forall slices r out, parafac2 slices r = Ok out ->
+  exists projections, out = [r] :: [length slices; r] :: [r; r] :: [snd (hd (0, 0) slices); r] :: projections /\
+  length projections = length slices /\
+  (forall i, i < length slices -> nth i projections [] = [fst (nth i slices (0, 0)); r]) /\
+  r <= snd (hd (0, 0) slices).
+Proof. exact parafac2_structure. Qed.
+Print Assumptions C08_parafac2_structure.
+Example C08_parafac2_structure_ex : parafac2 [(4, 3); (5, 3)] 2 = Ok [[2]; [2; 2]; [2; 2]; [3; 2]; [4; 2]; [5; 2]].
+Proof. vm_compute. reflexivity. Qed.
+
+(* CMTF: the CP tensor of the order-3 tensor and the CP tensor of the coupled matrix share the rank and the first mode *)
+Theorem C08_cmtf_structure : forall shape3 m spec out, cmtf shape3 m spec = Ok out ->
+  exists r, validate_cp_rank shape3 spec RRound = Ok r /\
+  out = ([r] :: map (fun s => [s; r]) shape3) ++ [[r]; [hd 0 shape3; r]; [m; r]].
+Proof. exact cmtf_structure. Qed.
+Print Assumptions C08_cmtf_structure.
+
+(* validate_tucker_rank: one rank per mode (int and fraction / 'same'), fractions never give a rank below 1 *)
+Theorem C08_validate_tucker_rank_length : forall shape spec rd c r, validate_tucker_rank shape spec rd c = Ok r ->
+  match spec with RList l => r = l | _ => length r = length shape end.
+Proof. exact validate_tucker_rank_length. Qed.
+Print Assumptions C08_validate_tucker_rank_length.
+Theorem C08_validate_tucker_rank_frac_pos : forall shape q rd c r, validate_tucker_rank shape (RFrac q) rd c = Ok r ->
+  Forall (fun x => 1 <= x) r.
+Proof. exact validate_tucker_rank_frac_pos. Qed.
+Print Assumptions C08_validate_tucker_rank_frac_pos.
+
 (* ================================================================== the normalisation contract (loop skeleton) *)
 (* St: any state space; sweep: one ALS / MU / HALS sweep; normalise: cp_normalize; decisions: per executed sweep
    (callback asked to stop, convergence test fired) -- every history is a decision sequence; n: the iteration cap *)
@@ -97,6 +163,24 @@ Print Assumptions C08_cp_unit_weights.
 (* non-vacuity: a state space on which a sweep really destroys normalisation *)
 Example C08_cp_normalised_ex : forall tol_set ik all_fixed n decisions, ghost_run true tol_set ik all_fixed n decisions = true.
 Proof. exact ghost_normalised. Qed.
+
+(* both named stopping paths exist in the skeleton and differ: with the convergence test never firing (or tol = 0) the
+   run is exactly n sweeps; with the test firing as soon as it is evaluated (iteration 1) it is exactly two sweeps *)
+Theorem C08_cp_cap_exit : forall (St : Type) (sweep normalise : St -> St) nf tol_set n it decisions s,
+  Forall (fun d => fst d = false /\ snd d = false) decisions ->
+  cp_loop St sweep normalise nf tol_set it n decisions s = steps St sweep normalise n nf s.
+Proof. exact cp_loop_cap_exit. Qed.
+Print Assumptions C08_cp_cap_exit.
+Theorem C08_cp_tol_unset : forall (St : Type) (sweep normalise : St -> St) nf n it decisions s,
+  no_callback_stop decisions ->
+  cp_loop St sweep normalise nf false it n decisions s = steps St sweep normalise n nf s.
+Proof. exact cp_loop_tol_unset. Qed.
+Print Assumptions C08_cp_tol_unset.
+Theorem C08_cp_convergence_exit : forall (St : Type) (sweep normalise : St -> St) nf n d0 decisions s, fst d0 = false ->
+  fst (hd (false, false) decisions) = false -> snd (hd (false, false) decisions) = true ->
+  cp_loop St sweep normalise nf true 0 (S (S n)) (d0 :: decisions) s = step St sweep normalise nf (step St sweep normalise nf s).
+Proof. exact cp_loop_convergence_exit. Qed.
+Print Assumptions C08_cp_convergence_exit.
 
 (* the instance compared with the implementation on every run (event traces of factor updates and cp_normalize calls) *)
 Theorem C08_trace_ends_normalised : forall d tol_set ik n_modes fixed n decisions,
@@ -168,6 +252,19 @@ Theorem C08_tt_core_left_orthogonal : forall rk I r (U : nat -> nat -> R), ortho
 Proof. exact tt_core_left_orthogonal. Qed.
 Print Assumptions C08_tt_core_left_orthogonal.
 
+(* the same with the truncation to r <= k columns that precedes the reshape (TT-SVD and the middle cores of TR-SVD) *)
+Theorem C08_tt_svd_core_left_orthogonal : forall rk I k r (U : nat -> nat -> R), orthonormal_cols (rk * I) k U -> (r <= k)%nat ->
+  forall b b', (b < r)%nat -> (b' < r)%nat ->
+  rsum rk (fun a => rsum I (fun i => core_of I U a i b * core_of I U a i b')) = delta b b'.
+Proof. exact tt_svd_core_left_orthogonal. Qed.
+Print Assumptions C08_tt_svd_core_left_orthogonal.
+(* TR-SVD, first core: factor[a, i, b] = U[i, a r1 + b]; its mode unfolding (I x r0 r1) has orthonormal columns *)
+Theorem C08_tr_first_core_orthonormal : forall I r0 r1 (U : nat -> nat -> R), orthonormal_cols I (r0 * r1) U ->
+  forall a b a' b', (a < r0)%nat -> (b < r1)%nat -> (a' < r0)%nat -> (b' < r1)%nat ->
+  rsum I (fun i => tr_first_core r1 U a i b * tr_first_core r1 U a' i b') = delta a a' * delta b b'.
+Proof. exact tr_first_core_orthonormal. Qed.
+Print Assumptions C08_tr_first_core_orthonormal.
+
 (* one factor of cp_normalize: non-zero columns get unit norm, the scale (the column norm) times the normalised
    column gives the column back, zero columns stay zero with scale 0 *)
 Theorem C08_normalise_factor_unit : forall I f r, colnorm2 I f r <> 0 -> colnorm2 I (normalise_factor I f) r = 1.
@@ -176,3 +273,22 @@ Print Assumptions C08_normalise_factor_unit.
 Theorem C08_normalise_factor_represents : forall I f r i, (i < I)%nat -> normalise_factor I f i r * scale_of I f r = f i r.
 Proof. exact normalise_factor_represents. Qed.
 Print Assumptions C08_normalise_factor_represents.
+
+(* cp_normalize on a whole CP tensor (weights w, factors fs with their numbers of rows): the scale is carried by the
+   weights -- every rank-one term of every entry of the represented tensor is unchanged -- and every returned column has
+   unit norm unless it is a zero column, whose component then has weight 0; weights are non-negative; shapes are kept *)
+Theorem C08_cp_normalize_represents : forall w fs idx r, fs <> [] -> in_bounds fs idx ->
+  let '(w', fs') := cp_normalize w fs in cp_entry_term w' fs' idx r = cp_entry_term w fs idx r.
+Proof. exact cp_normalize_represents. Qed.
+Print Assumptions C08_cp_normalize_represents.
+Theorem C08_cp_normalize_unit_columns : forall w fs r f', In f' (snd (cp_normalize w fs)) ->
+  colnorm2 (rows f') (ent f') r = 1 \/
+  ((forall i, (i < rows f')%nat -> ent f' i r = 0) /\ fst (cp_normalize w fs) r = 0).
+Proof. exact cp_normalize_unit_columns. Qed.
+Print Assumptions C08_cp_normalize_unit_columns.
+Theorem C08_cp_normalize_weights_nonneg : forall w fs r, 0 <= fst (cp_normalize w fs) r.
+Proof. exact cp_normalize_weights_nonneg. Qed.
+Print Assumptions C08_cp_normalize_weights_nonneg.
+Theorem C08_cp_normalize_shapes : forall w fs, map rows (snd (cp_normalize w fs)) = map rows fs.
+Proof. exact cp_normalize_shapes. Qed.
+Print Assumptions C08_cp_normalize_shapes.
